@@ -9,6 +9,8 @@ From TS Require Import Spec.C10TsGrammar.
 From TS Require Proofs.C10_TSGrammarTok Proofs.C10_TSGrammarParse Proofs.C10_TSGrammar Proofs.C10_TSGrammarFile.
 From TS Require Import Model.MultiFile Spec.C10MultiSpec.
 From TS Require Model.Writer Proofs.C10Multi Proofs.C10MultiWitness.
+From TS Require Import Spec.C10GoGrammar.
+From TS Require Proofs.C10_GOGrammarTok Proofs.C10_GOGrammarSemi Proofs.C10_GOGrammarParse Proofs.C10_GOGrammar Proofs.C10_GOGrammarFile.
 From TS Require Props.C10.
 
 Goal forall (cfg : c10_lexcfg) (t : str), c10_balanced cfg t = true ->
@@ -256,3 +258,52 @@ Goal c10_imports_ok [(lit "al""pha", [lit "Item"])] = false /\
   good_C10_lex CTS (ts_write_imports [(lit "alpha", [lit "Item"])]) = true.
 Proof. exact Props.C10.C10_multi_imports_hypothesis_needed. Qed.
 Print Assumptions Props.C10.C10_multi_imports_hypothesis_needed.
+Goal forall (a : str) (ta : list c10_gtok) (b : str) (tb : list c10_gtok),
+    c10_go_tokens (S (List.length a)) a = Some ta -> c10_go_tokens (S (List.length b)) b = Some tb ->
+    Proofs.C10_GOGrammarTok.gglue a b = true -> Proofs.C10_GOGrammarTok.lcok a b = true ->
+    c10_go_tokens (S (List.length (a ++ b))) (a ++ b) = Some (ta ++ tb).
+Proof. exact Props.C10.C10_go_tokens_frame. Qed.
+Print Assumptions Props.C10.C10_go_tokens_frame.
+Goal forall (a : list c10_gtok) (fl : bool) (b : list c10_gtok),
+    c10_go_semis fl (a ++ b) = c10_go_semis fl a ++ c10_go_semis (Proofs.C10_GOGrammarSemi.endfl fl a) b.
+Proof. exact Props.C10.C10_go_semis_app. Qed.
+Print Assumptions Props.C10.C10_go_semis_app.
+Goal forall (t rest : list c10_gtok),
+    Proofs.C10_GOGrammarParse.GGr Proofs.C10_GOGrammarParse.GTy t -> Proofs.C10_GOGrammarParse.folt rest ->
+    c10_go_type (t ++ rest) = Some rest.
+Proof. exact Props.C10.C10_go_type_grammar_complete. Qed.
+Print Assumptions Props.C10.C10_go_type_grammar_complete.
+Goal forall (pkg : str) (n : nat) (ds : list (list c10_gtok)),
+    c10_go_kw pkg = false -> Forall Proofs.C10_GOGrammarParse.DeclToks ds ->
+    c10_go_file (QId (lit "package") :: QId pkg :: QP 59 :: Proofs.C10_GOGrammarParse.imports_toks n ++ Proofs.C10_GOGrammarParse.decls_toks ds)
+      = Some (List.length ds).
+Proof. exact Props.C10.C10_go_file_grammar_complete. Qed.
+Print Assumptions Props.C10.C10_go_file_grammar_complete.
+Goal forall (nv : bool) (version package : str) (imports : list str) (ds : list go_decl),
+    Proofs.C10Lex.c10_line_ok version = true -> Proofs.C10_GOGrammarSemi.c10_go_name_ok package = true ->
+    forallb c10_instr_ok imports = true -> Forall Proofs.C10_GOGrammar.c10_gog_decl_ok ds ->
+    exists n : nat,
+      c10_go_recognise (Proofs.C10_GOGrammarFile.go_header nv version package ++ go_write_all_imports imports ++
+                        List.concat (map go_render_decl ds)) = Some n /\ (List.length ds <= n)%nat.
+Proof. exact Props.C10.C10_go_layout_grammar_partial. Qed.
+Print Assumptions Props.C10.C10_go_layout_grammar_partial.
+Goal Proofs.C10_GOFile.c10_go_cfg_ok Proofs.C10_GOGrammarFile.gg_cfg = true /\ dom_C10 CGO Proofs.C10_GOGrammarFile.gg_prog = true /\
+  known_C10 CGO [] Proofs.C10_GOGrammarFile.gg_prog = [] /\ known_C10_go_grammar Proofs.C10_GOGrammarFile.gg_prog = [] /\
+  go_generate uc_exec Proofs.C10_GOGrammarFile.gg_cfg Proofs.C10_GOGrammarFile.gg_prog = Ok Proofs.C10_GOGrammarFile.gg_text /\
+  c10_go_recognise Proofs.C10_GOGrammarFile.gg_text = Some 19%nat /\
+  contains_sub (lit "type Person[T any, U any] struct {") Proofs.C10_GOGrammarFile.gg_text = true /\
+  contains_sub (lit "import (") Proofs.C10_GOGrammarFile.gg_text = true /\
+  contains_sub (lit "func (e *E) UnmarshalJSON(data []byte) error {") Proofs.C10_GOGrammarFile.gg_text = true /\
+  contains_sub (lit "const MaxRetries int = -12") Proofs.C10_GOGrammarFile.gg_text = true /\
+  c10_go_recognise (Proofs.C10_TSGrammarFile.g_drop_first 123 Proofs.C10_GOGrammarFile.gg_text) = None /\
+  c10_go_recognise (Proofs.C10_TSGrammarFile.g_subst_first 61 58 Proofs.C10_GOGrammarFile.gg_text) = None /\
+  c10_go_recognise (Proofs.C10_TSGrammarFile.g_drop_first 96 Proofs.C10_GOGrammarFile.gg_text) = None /\
+  c10_go_recognise Proofs.C10_GOGrammarFile.gg_two_fields_two_lines = Some 1%nat /\
+  c10_go_recognise Proofs.C10_GOGrammarFile.gg_two_fields_one_line = None /\
+  c10_go_recognise Proofs.C10_GOGrammarFile.gg_type_without_name = None.
+Proof. exact Props.C10.C10_grammar_go_witness. Qed.
+Print Assumptions Props.C10.C10_grammar_go_witness.
+Goal exists cfg pd text, dom_C10 CGO pd = true /\ known_C10 CGO [] pd = [] /\ known_C10_go_grammar pd = ["C10-go-keyword-name"%string] /\
+    go_generate uc_exec cfg pd = Ok text /\ contains_sub (lit "type switch struct{") text = true /\ c10_go_recognise text = None.
+Proof. exact Props.C10.C10_go_keyword_name_refuted. Qed.
+Print Assumptions Props.C10.C10_go_keyword_name_refuted.
